@@ -787,6 +787,7 @@ func getEscapedRune(ch rune) rune {
 }
 
 func (s *Lexer) read() rune {
+	verifLexRead()
 	ch, _, err := s.r.ReadRune()
 	if err != nil {
 		return rune(0)
